@@ -106,8 +106,8 @@ pub fn sequences(alphabet: &[&str], max_len: usize) -> Vec<Vec<String>> {
     out
 }
 
-const LEX: &[&str] = &["a", "b", "ab", "  a", "b  ", "", "   ", "B", "é"];
-const NUM: &[&str] = &["2", "10", "9.5", "-3", " 2", "", "2.0"];
+const LEX: &[&str] = &["a", "b", "ab", "  a", "b  ", "", "   ", "B", "é", "\u{a0}b\u{3000}", "\u{2003}"];
+const NUM: &[&str] = &["2", "10", "9.5", "-3", " 2", "", "2.0", "\u{3000}10\u{a0}"];
 const IDS: &[&str] = &["id:1", "x id:10 y", "id:9", "  id:10", "nomatch", "", "id:x id:2"];
 const KS: &[&str] = &["ka", "kb", "kab", " ka", "kB", "k", "ka b"];
 const DIRS: &[Option<&str>] = &[None, Some(""), Some("asc"), Some("ASC"), Some("desc"), Some("Desc")];
